@@ -67,6 +67,13 @@ def run(ctx):
         {"id": "C03-long-middle", "res": 192, "body": [("N", 0, 0, 0), ("N", 10, 1, 9000), ("N", 10, 2, 1), ("N", 20, 2, 10)],
          "tempo": [[0, 120000], [100, 60000], [3000, 240000]]},
     ]
+    # times of centuries (0.001 BPM for 40 million ticks, then sub-microsecond ticks): end times one or two microseconds apart
+    # that no longer differ as doubles - the latest-ending note first, last, and in the middle
+    for n_ in (60, 61, 62, 63, 65, 67):
+        base_t = 40400000
+        for shape in ("flat", "rise-fall"):
+            body = [("N", base_t + j, j % 5, 0 if shape == "flat" else (3 * min(j, n_ - j))) for j in range(n_)]
+            special.append({"id": f"C03-centuries-{n_}-{shape}", "res": 192, "body": body, "tempo": [[0, 1], [base_t, 400000000]]})
     _notes._judge(ctx, special, "C03", "special tracks")
     # TRACE: seeded wide-domain tracks with many sustains over multi-segment tempo maps
     cases = _notes.seeded_tracks(ctx, "C03", ctx.pick(400, 6000), sustain_p=0.7)
